@@ -27,6 +27,77 @@ CONTAINER_VALIDATORS = [
     f"{VAL}._prepare_validator_of_tuple.validator",
     f"{VAL}._prepare_validator_of_tuple.validator#2",
 ]
+KIND_OF_ORIGIN = {
+    "tuple": "tuple", "frozenset": "set", "Set": "set", "Sequence": "sequence", "Mapping": "mapping",
+    "Any": "any", "NoneType": "none", "Missing": "missing", "Literal": "literal", "type": "type", "int": "type", "str": "type",
+    "Union": "union", "UnionType": "union", "Callable": "callable",
+}  # fmt: skip
+CONTAINER_KINDS = ("set", "sequence", "mapping", "tuple")
+EXPECTED_CTOR = {"set": "frozenset", "sequence": "tuple", "mapping": "MappingProxyType", "tuple": "tuple"}
+
+
+def multi_validator_names(fac: FunctionInfo) -> set[str]:
+    """Locals of a factory that hold one validator per annotation argument ([attribute_validator(a) for a in ...])."""
+    multi: set[str] = set()
+    for n in fac.own_nodes():
+        if isinstance(n, (ast.Assign, ast.AnnAssign)) and getattr(n, "value", None) is not None:
+            if any(isinstance(x, (ast.ListComp, ast.GeneratorExp)) and any(isinstance(c, ast.Call) and is_name(c.func, "attribute_validator") for c in ast.walk(x.elt)) for x in ast.walk(n.value)):
+                for t in n.targets if isinstance(n, ast.Assign) else [n.target]:
+                    if isinstance(t, ast.Name):
+                        multi.add(t.id)
+    return multi
+
+
+def factory_closures(an: Analysis) -> dict[str, tuple[FunctionInfo, list[FunctionInfo]]]:
+    """kind -> (factory, its one-parameter validator closures), discovered from the VALIDATORS table of the current
+    tree (not from closure names): table key -> factory -> closures defined in it (helpers a factory delegates to are
+    inlined by the normaliser, so their closures show up here too)."""
+    cached = getattr(an, "_factory_closures", None)
+    if cached is not None:
+        return cached
+    prog = an.prog
+    mod = prog.module("state.validation")
+    table = None
+    for st in mod.tree.body:
+        tgt = st.target if isinstance(st, ast.AnnAssign) else (st.targets[0] if isinstance(st, ast.Assign) else None)
+        if isinstance(tgt, ast.Name) and tgt.id == "VALIDATORS" and isinstance(getattr(st, "value", None), ast.Dict):
+            table = st.value
+    if table is None:
+        raise AnalysisError("the VALIDATORS table of haiway.state.validation was not found")
+    out: dict[str, tuple[FunctionInfo, list[FunctionInfo]]] = {}
+    for k, v in zip(table.keys, table.values):
+        kn = (dotted(k) or "").rsplit(".", 1)[-1] if k is not None else ""
+        if kn in KIND_OF_ORIGIN and isinstance(v, ast.Name) and KIND_OF_ORIGIN[kn] not in out:
+            fi = prog.functions.get(f"{mod.name}.{v.id}")
+            if fi is None:
+                raise AnalysisError(f"VALIDATORS[{kn}] = {v.id} is not a function of haiway.state.validation")
+            closures = [c for c in fi.nested if len(c.node.args.posonlyargs + c.node.args.args) == 1 and not c.node.args.vararg and not c.node.args.kwarg]
+            out[KIND_OF_ORIGIN[kn]] = (fi, closures)
+    missing = {k for k in out if not out[k][1]}  # (a kind absent from the table altogether is C05.8's finding)
+    if missing:
+        raise AnalysisError(f"validator closures not found in the factories of the kinds {sorted(missing)}")
+    an._factory_closures = out  # type: ignore[attr-defined]
+    return out
+
+
+def container_validators(an: Analysis) -> list[tuple[str, bool, FunctionInfo]]:
+    """(kind, is_fixed_tuple, closure) for every validator closure of the container factories."""
+    out: list[tuple[str, bool, FunctionInfo]] = []
+    for kind, (fac, closures) in factory_closures(an).items():
+        if kind not in CONTAINER_KINDS:
+            continue
+        multi = multi_validator_names(fac)
+        for c in closures:
+            fixed = any(isinstance(x, ast.Name) and x.id in multi for x in c.own_nodes())
+            out.append((kind, fixed, c))
+    have = {(k, fx) for k, fx, _ in out}
+    registered = set(factory_closures(an))
+    missing = {m for m in {("set", False), ("sequence", False), ("mapping", False), ("tuple", False), ("tuple", True)} - have if m[0] in registered}
+    if missing:
+        raise AnalysisError(f"container validator closures not found for {sorted(missing)}")
+    return out
+
+
 IMMUTABLE_CTORS = {"builtins.tuple": "tuple", "builtins.frozenset": "frozenset", "types.MappingProxyType": "MappingProxyType"}
 NOT_DEEPCOPYABLE = {"MappingProxyType"}
 
@@ -66,6 +137,11 @@ def conversion(an: Analysis, fi: FunctionInfo, r: ast.Return) -> tuple[str | Non
         return None, None, "returns something that is not tuple(...)/frozenset(...)/MappingProxyType(...)"
     inner = unwrap(v.args[0])
     sh = CompShape(inner)
+    if not sh.ok and isinstance(inner, ast.Name):
+        # a local accumulator filled by one loop (`acc = {}; for ...: acc[k] = v`) is the comprehension it is equivalent to
+        from ..domains import comp_of
+
+        sh = comp_of(Deps(an.prog, fi), inner) or sh
     if not sh.ok:
         return ctor, None, f"{ctor}(...) is applied to `{stmt_text(inner, 60)}` - not a fresh comprehension over the validated elements (a view over the caller's own container stays mutable from outside)"
     if ctor == "MappingProxyType" and not sh.is_dict:
@@ -110,9 +186,9 @@ def check(an: Analysis) -> None:
 
     # ------------------------------------------------------------------ C04.3 container validators return fresh immutable containers
     ob = an.ob("C04.3", "K9", "every normal return of the set / sequence / mapping / tuple validators is tuple(..)/frozenset(..)/MappingProxyType(<fresh dict comprehension>) built by a comprehension - never the input object or a view over it", CONTAINER_VALIDATORS)
-    produced: dict[str, tuple[FunctionInfo, ast.Return]] = {}
-    for q in CONTAINER_VALIDATORS:
-        f = prog.fn(q)
+    produced: dict[str, tuple[FunctionInfo, ast.Return, str]] = {}
+    cvs = container_validators(an)
+    for kind, _fixed, f in cvs:
         rets = [r for r in f.own_nodes() if isinstance(r, ast.Return)]
         if not rets:
             ob.fail(f, None, "validator returns nothing")
@@ -122,20 +198,13 @@ def check(an: Analysis) -> None:
             if problem:
                 ob.fail(f, r, problem + ": later mutation of the argument container would show through the State")
             if ctor:
-                produced.setdefault(ctor, (f, r))
-    expect = {
-        "_prepare_validator_of_set": "frozenset",
-        "_prepare_validator_of_sequence": "tuple",
-        "_prepare_validator_of_mapping": "MappingProxyType",
-        "_prepare_validator_of_tuple": "tuple",
-    }
-    for q in CONTAINER_VALIDATORS:
-        f = prog.fn(q)
-        want = expect[f.outer.name]
+                produced.setdefault(ctor, (f, r, kind))
+    for kind, _fixed, f in cvs:
+        want = EXPECTED_CTOR[kind]
         for r in [r for r in f.own_nodes() if isinstance(r, ast.Return)]:
             ctor, _, problem = conversion(an, f, r)
             if not problem and ctor != want:
-                ob.fail(f, r, f"{f.outer.name} converts to {ctor} instead of {want}")
+                ob.fail(f, r, f"the {kind} validator converts to {ctor} instead of {want}")
 
     # ------------------------------------------------------------------ C04.4 copy-on-update
     ob = an.ob("C04.4", "K7+K5", "State.__replace__ returns self.__class__(**{**vars(self), **kwargs}) (kwargs win, re-validated by the constructor, self untouched); updated forwards **kwargs to it", [f"{ST}.__replace__", f"{ST}.updated"])
@@ -246,10 +315,10 @@ def check(an: Analysis) -> None:
     # ------------------------------------------------------------------ C04.7 conversions vs deepcopy support
     ob = an.ob("C04.7", "K10", "no immutable conversion type produced by the validators is un-deepcopyable unless State.__deepcopy__ dispatches on it (API_FACT 4)", CONTAINER_VALIDATORS + [f"{ST}.__deepcopy__"])
     handled = {n.id for n in ast.walk(dc.node) if isinstance(n, ast.Name)} | {n.attr for n in ast.walk(dc.node) if isinstance(n, ast.Attribute)}
-    for ctor, (f, r) in sorted(produced.items()):
+    for ctor, (f, r, kind) in sorted(produced.items()):
         ob.inst(f, r, ctor)
         if ctor in NOT_DEEPCOPYABLE and ctor not in handled:
-            ob.fail(f, unwrap(r.value).func, f"the validator stores a {ctor}, which copy.deepcopy cannot copy: deepcopy of any State holding a Mapping attribute raises TypeError (cannot pickle 'mappingproxy')")
+            ob.fail(f, unwrap(r.value).func, f"the validator stores a {ctor}, which copy.deepcopy cannot copy: deepcopy of any State holding a Mapping attribute raises TypeError (cannot pickle 'mappingproxy')", construct=ctor, at=f"haiway.state.validation.<{kind}-validator>")
 
     # ------------------------------------------------------------------ C04.8 equality
     ob = an.ob("C04.8", "K2", "State.__eq__ answers False unless the classes are related (guard on both self.__class__ and other.__class__) and otherwise compares every attribute of __ATTRIBUTES__", [f"{ST}.__eq__"])
